@@ -755,9 +755,17 @@ def real_metastate(uni: B.Universe, clazz: str, warm, calls):
                 return B.classify_exc(e)
         return {"ok": {"value": uni.to_val(obj), "warnings": sum(1 for x in w if issubclass(x.category, ConverterWarning))}}
 
+    def metas():
+        # the cache is keyed by (class, parent namespace) since /repo b368559 (by class before)
+        out = {}
+        for k, m in ctx.cache.items():
+            cls, pns = k if isinstance(k, tuple) else (k, None)
+            out[(cls.__name__, pns)] = snapshot(m)
+        return out
+
     run(warm, {})
-    before = {k.__name__: snapshot(m) for k, m in ctx.cache.items()}
+    before = metas()
     results = [run(c["tree"], c["config"]) for c in calls]
-    after = {k.__name__: snapshot(m) for k, m in ctx.cache.items()}
-    changed = sorted(k for k in before if after.get(k) != before[k])
+    after = metas()
+    changed = sorted({k[0] for k in before if after.get(k) != before[k]})
     return {"ok": {"results": results, "changed": changed}}
